@@ -714,6 +714,15 @@ pub fn sched_specs(prop: &str, tier: &str) -> Vec<HistSpec> {
             ];
             // one purge making two chunks obsolete at once (rotation at every write):
             // crashes between the unlinks of one removal request
+            // an acknowledged prefix, then a purge whose flush also carries the chunk removal:
+            // the removal must not overtake the write/sync of its own batch
+            for c in [Cfg::records(2), Cfg::records(3)] {
+                let mut s = base_spec(prop, schedx::from_syms(&[Sym::A, Sym::F, Sym::W, Sym::Pfirst, Sym::F]), c);
+                s.crash = true;
+                s.o_c03 = prop == "C03";
+                s.o_c05 = prop == "C05";
+                out.push(s);
+            }
             for sh in [vec![Sym::A, Sym::Pfirst, Sym::F], vec![Sym::A, Sym::Pfirst, Sym::F, Sym::W]] {
                 let mut s = base_spec(prop, schedx::from_syms(&sh), Cfg::records(2));
                 s.crash = true;
@@ -772,6 +781,15 @@ pub fn sched_specs(prop: &str, tier: &str) -> Vec<HistSpec> {
                     vec![Sym::A, Sym::F, Sym::A, Sym::F],
                     vec![Sym::A, Sym::Fn, Sym::F],
                 ];
+                // a failed sync while two files are tracked leaves three tracked files at
+                // the next flush (rotation at every write, one fdatasync failure)
+                {
+                    let mut s3 = base_spec(prop, schedx::from_syms(&[Sym::A, Sym::A, Sym::F]), Cfg::records(2));
+                    s3.o_c04 = true;
+                    s3.max_faults = 1;
+                    s3.fault_policy = FaultPolicy::WorkerSyncEio;
+                    out.push(s3);
+                }
                 for sh in shapes {
                     for c in [Cfg::records(2), Cfg::records(3)] {
                         // two rotations x two faults: thorough tier only
@@ -818,6 +836,10 @@ pub fn sched_specs(prop: &str, tier: &str) -> Vec<HistSpec> {
                 // rotation, flush and further appends under cache pressure
                 vec![Sym::A, Sym::Ks, Sym::A, Sym::A, Sym::F, Sym::W, Sym::A, Sym::Ki],
                 vec![Sym::A, Sym::A, Sym::Ks, Sym::A, Sym::F, Sym::W, Sym::I, Sym::E, Sym::Ki],
+                // the boundary must move BACK: a chunk closes with last (3,1), is synced;
+                // after a truncation the next chunk closes with last (1,0), is synced; an
+                // entry (2,1) appended then must stay pinned
+                vec![Sym::A, Sym::Aup, Sym::F, Sym::W, Sym::T, Sym::V, Sym::F, Sym::W, Sym::Alow, Sym::R],
                 vec![Sym::A, Sym::Aup, Sym::F, Sym::W, Sym::T, Sym::Alow, Sym::R],
                 vec![Sym::A, Sym::Aup, Sym::A, Sym::F, Sym::W, Sym::T, Sym::T, Sym::Alow, Sym::R],
                 vec![Sym::A, Sym::Aup, Sym::F, Sym::W, Sym::I, Sym::T, Sym::Alow, Sym::E, Sym::R],
@@ -869,6 +891,9 @@ pub fn sched_specs(prop: &str, tier: &str) -> Vec<HistSpec> {
                     if !thorough && f.len() == 9 && f.iter().filter(|x| **x == Sym::T).count() == 2 && (ci == 0 || ci == 3) {
                         continue;
                     }
+                    if !thorough && f.len() == 10 && ci != 0 {
+                        continue;
+                    }
                     let mut s = base_spec(prop, schedx::from_syms(&f), Cfg::records(3).with_cache(*items, *cap));
                     s.o_c07 = true;
                     out.push(s);
@@ -918,6 +943,11 @@ pub fn sched_specs(prop: &str, tier: &str) -> Vec<HistSpec> {
                     syms[pp..].contains(&Sym::F) && (len < 5 || has(syms, Sym::A))
                 };
                 let mut hs = schedx::histories(&alpha, len, &keep);
+                if len == max_len {
+                    // an older chunk that must be KEPT (closing last above the purge point)
+                    // in front of later chunks that close with a smaller last
+                    hs.push(schedx::from_syms(&[Sym::Aup, Sym::T, Sym::Pbeyond, Sym::F]));
+                }
                 if len == max_len && thorough {
                     // closed chunks whose closing `last` is not monotone (lower-term
                     // re-append after a truncation), then a purge between them
